@@ -166,8 +166,10 @@ class PybindWrapper:
         """
         # Redirect stdout - see pybind docs for why this is a good idea:
         # https://pybind11.readthedocs.io/en/stable/advanced/pycpp/utilities.html#capturing-standard-output-from-ostream
+        # (only the call in the lambda, which comes first: the same text may
+        # occur again in the docstring at the end of the binding)
         ret = ret.replace('self->print',
-                          'py::scoped_ostream_redirect output; self->print')
+                          'py::scoped_ostream_redirect output; self->print', 1)
 
         # Make __repr__() call .print() internally
         ret += '''{prefix}.def("__repr__",
